@@ -298,6 +298,28 @@ def roundtrip(stg, ed, rng, npatch, with_bad, form, tag="c18"):
         if p.returncode != 0:
             return 0, [{"obligation": "direct-oracle:C18", "why": "export failed", "stderr": p.stderr[-300:]}], seen_known
         n += model_export_check(r, stg, ed, names, outdir, failures)
+        if rng.random() < 0.5:
+            # exporting again into the same directory - where every file of the first export has since
+            # grown a stale tail (an extra diff section, a longer series file) - gives the same bytes as
+            # exporting into a fresh one
+            first = {f: open(os.path.join(outdir, f), "rb").read() for f in os.listdir(outdir)}
+            for k, f in enumerate(sorted(first)):
+                with open(os.path.join(outdir, f), "ab") as fh:
+                    if f == "series":
+                        fh.write(b"# stale line\nstale-patch-that-does-not-exist\n")
+                    else:
+                        fh.write(("diff --git a/stale-%d.txt b/stale-%d.txt\nnew file mode 100644\n--- /dev/null\n"
+                                  "+++ b/stale-%d.txt\n@@ -0,0 +1 @@\n+stale\n" % (k, k, k)).encode())
+            p = r.stg(stg, ["export", "-d", outdir])
+            n += 1
+            again = {f: open(os.path.join(outdir, f), "rb").read() for f in os.listdir(outdir)}
+            if p.returncode != 0:
+                failures.append({"obligation": "direct-oracle:C18", "why": "exporting into the directory of an earlier "
+                                 "export failed", "stderr": p.stderr[-300:]})
+            elif again != first:
+                bad = sorted(f for f in set(first) | set(again) if first.get(f) != again.get(f))
+                failures.append({"obligation": "direct-oracle:C18", "why": "exporting again into the same directory does "
+                                 "not give the files of a fresh export (stale content survives): %r" % bad[:4]})
         # import on the same base, on a fresh branch
         r.git(["checkout", "-q", "-b", "imp", base])
         r.stg(stg, ["init"])
